@@ -50,10 +50,30 @@ def renderPiece (p : M) : String :=
 
 def oracle (c : Case) (k : Key) : Nat := (AList.lookup k c.h).getD 0
 
+def entryStrings (p : M) : List String :=
+  p.counters.map (fun e => s!"c {e.1.1} {e.1.2} {e.2}") ++ p.timers.map (fun e => s!"t {e.1.1} {e.1.2} {e.2}") ++
+  p.gauges.map (fun e => s!"g {e.1.1} {e.1.2} {e.2}") ++ p.sets.map (fun e => s!"s {e.1.1} {e.1.2} {e.2}")
+
+/-- the one-series batches of `m`, in the order of the case line (`order` = keys with type tags) -/
+def singles (m : M) : List M :=
+  m.counters.map (fun e => ({ counters := [e] } : M)) ++ m.timers.map (fun e => ({ timers := [e] } : M)) ++
+  m.gauges.map (fun e => ({ gauges := [e] } : M)) ++ m.sets.map (fun e => ({ sets := [e] } : M))
+
+def seriesCount (m : M) : Nat := m.counters.length + m.timers.length + m.gauges.length + m.sets.length
+
+/-- what each worker is handed by `DispatchMetricMap` for the batch and then for every series alone -/
+def dispatchOut (c : Case) : String :=
+  if c.n > 16 || seriesCount c.m > 30 then "D -" else
+  let sent := (c.m :: singles c.m).flatMap (fun b => MMap.dispatch (oracle c) c.n b)
+  let perWorker := (List.range c.n).map (fun w =>
+    let es := sortStrings ((sent.filter (fun p => p.1 == w)).flatMap (fun p => entryStrings p.2))
+    if es.isEmpty then "-" else " ; ".intercalate es)
+  "D " ++ " | ".intercalate perWorker
+
 def runModel (line : String) : String :=
   match parseCase line with
   | none => "BAD_CASE"
-  | some c => " | ".intercalate ((c.m.split (oracle c) c.n).map renderPiece)
+  | some c => " | ".intercalate ((c.m.split (oracle c) c.n).map renderPiece) ++ " || " ++ dispatchOut c
 
 /-- Executable specification evaluated on the *implementation's* output: every series of the batch is
 in piece `h k` and only there, with its value; no piece holds anything else; `n` pieces. -/
@@ -61,7 +81,21 @@ def spec (caseLine implLine : String) : String :=
   match parseCase caseLine with
   | none => "BAD_CASE"
   | some c =>
-    let pieces := (implLine.splitOn " | ")
+    let halves := implLine.splitOn " || "
+    let pieces := ((halves.headD "").splitOn " | ")
+    let dpart := halves.getD 1 ""
+    -- dispatch half: worker w must have been handed exactly the series routed to w (each twice:
+    -- once in the batch, once alone), and nothing else
+    let dispatchOk : Bool :=
+      if dpart = "D -" then true else
+      let ws := (dpart.drop 2).toString.splitOn " | "
+      ws.length == c.n && (List.range c.n).all (fun w =>
+        let pick (ty : String) (l : AList Key String) :=
+          (l.filter (fun e => oracle c e.1 % c.n == w)).map (fun e => s!"{ty} {e.1.1} {e.1.2} {e.2}")
+        let once := pick "c" c.m.counters ++ pick "t" c.m.timers ++ pick "g" c.m.gauges ++ pick "s" c.m.sets
+        let want := sortStrings (once ++ once)
+        ws[w]! == (if want.isEmpty then "-" else " ; ".intercalate want))
+    if !dispatchOk then "FAIL dispatch a worker was handed a series that is not routed to it (or missed one)" else
     if pieces.length ≠ c.n then s!"FAIL piece-count {pieces.length} != {c.n}" else
     let expected (i : Nat) : List String :=
       let pick (ty : String) (l : AList Key String) :=
